@@ -89,6 +89,11 @@ def gen_cases(tier, rng):
                     k += 1
                     yield {"kind": name, "mod": name, "hashseed": seeds[k % len(seeds)],
                            "inner": dict(c, _lab=fam, _order=rng.randrange(10 ** 6))}
+    # a node argument that is NOT in the graph, under every label family: the outcome (exception class, or value) must be the one
+    # obtained with plain int labels ("a node passed as an argument is treated as one node": a 2-tuple label must not be
+    # splatted into a %-format, iterated or unpacked on the error path either)
+    for api in MISSING_APIS:
+        yield {"kind": "missing", "api": api, "mod": "_missing", "hashseed": 0}
     # executable cross-check of the renaming theorems
     for i in range(40 if tier == "quick" else 400):
         n = rng.randint(2, 5)
@@ -115,9 +120,54 @@ def _worker(seed):
     return w
 
 
+# (all_semi_directed_paths' TARGET is left out: like networkx' all_simple_paths it accepts a node or a container of nodes, so a tuple that
+# is not a node is by design read as a container of targets)
+MISSING_APIS = ["inducing_path:y", "inducing_path:x", "m_separated:y", "m_separated:z", "all_semi_directed_paths:s",
+                "possible_ancestors", "possible_descendants", "pds:x", "pds:y", "pds_path:y",
+                "uncovered_pd_path:u", "uncovered_pd_path:c", "discriminating_path:u", "minimal_m_separator:y",
+                "is_minimal_m_separator:y", "sigma_separated:y", "valid_mag:L", "dag_to_mag:L"]
+_MISSING_G = gr.G([0, 1, 2, 3], D=[(0, 1), (1, 2)], B=[(2, 3)])
+_MISSING_P = gr.G([0, 1, 2, 3], D=[(0, 1)], C=[(1, 2), (2, 1), (2, 3)], B=[])
+
+
+def _missing_call(api, fam):
+    import pywhy_graphs.algorithms as alg
+    import pywhy_graphs.networkx as pywhy_nx
+    case = {"_lab": fam}
+    name = api.split(":")[0]
+    if name in ("possible_ancestors", "possible_descendants", "pds", "pds_path", "uncovered_pd_path", "discriminating_path",
+                "all_semi_directed_paths"):
+        G, lab, inv = gr.to_pag(_MISSING_P, case)
+    else:
+        G, lab, inv = gr.to_admg(_MISSING_G, case)
+    a, b, c, m = lab(0), lab(1), lab(2), lab(77)
+    calls = {
+        "inducing_path:y": lambda: alg.inducing_path(G, a, m), "inducing_path:x": lambda: alg.inducing_path(G, m, c),
+        "m_separated:y": lambda: pywhy_nx.m_separated(G, {a}, {m}, set()), "m_separated:z": lambda: pywhy_nx.m_separated(G, {a}, {c}, {m}),
+        "all_semi_directed_paths:s": lambda: list(alg.all_semi_directed_paths(G, m, c)),
+        "all_semi_directed_paths:t": lambda: list(alg.all_semi_directed_paths(G, a, m)),
+        "possible_ancestors": lambda: alg.possible_ancestors(G, m), "possible_descendants": lambda: alg.possible_descendants(G, m),
+        "pds:x": lambda: alg.pds(G, m, c), "pds:y": lambda: alg.pds(G, a, m), "pds_path:y": lambda: alg.pds_path(G, a, m),
+        "uncovered_pd_path:u": lambda: alg.uncovered_pd_path(G, m, c, 10, first_node=b),
+        "uncovered_pd_path:c": lambda: alg.uncovered_pd_path(G, a, m, 10, first_node=b),
+        "discriminating_path:u": lambda: alg.discriminating_path(G, m, b, c, 10),
+        "minimal_m_separator:y": lambda: pywhy_nx.minimal_m_separator(G, a, m),
+        "is_minimal_m_separator:y": lambda: pywhy_nx.is_minimal_m_separator(G, a, m, set()),
+        "sigma_separated:y": lambda: alg.sigma_separated(G, {a}, {m}, set()),
+        "valid_mag:L": lambda: alg.valid_mag(G, L={m}), "dag_to_mag:L": lambda: alg.dag_to_mag(G.get_graphs("directed"), L={m}).number_of_nodes(),
+    }
+    try:
+        r = calls[api]()
+        return "value:" + type(r).__name__
+    except BaseException as e:  # noqa
+        return "exc:" + type(e).__name__
+
+
 def run_impl(case):
     if case["kind"] == "oracle":
         return {"oracle": True}
+    if case["kind"] == "missing":
+        return {"outcome": {fam: _missing_call(case["api"], fam) for fam in ["int"] + [f for f in FAMILIES if f != "obj"]}}
     w = _worker(case["hashseed"])
     w.stdin.write(json.dumps({"mod": case["mod"], "case": case["inner"],
                               "timeout": getattr(inner(case["mod"]), "IMPL_TIMEOUT", 20)}) + "\n")
@@ -134,6 +184,10 @@ def custom_evaluate(cases, pool):
     for i, c in enumerate(cases):
         by_mod.setdefault(c["mod"] if c["kind"] != "oracle" else "_oracle", []).append(i)
     for name, idxs in by_mod.items():
+        if name == "_missing":
+            for i in idxs:
+                sxs[i], model[i] = [0], {"missing": True}
+            continue
         if name == "_oracle":
             enc = [[gr.enc(cases[i]["g"]), cases[i]["X"], cases[i]["Y"], cases[i]["Z"], cases[i]["table"]] for i in idxs]
             out = fw.run_model("C15", enc, pool)
@@ -155,6 +209,12 @@ def custom_evaluate(cases, pool):
 
 
 def compare(case, impl, model):
+    if case["kind"] == "missing":
+        if "exc" in impl:
+            return "missing-node:harness"
+        o = impl["outcome"]
+        bad = sorted(f for f, v in o.items() if v != o["int"])
+        return None if not bad else "missing-node:%s:outcome-depends-on-label-family" % case["api"]
     if case["kind"] == "oracle":
         a, b, c, d = model["vals"]
         return None if (a == b and c == d) else "renaming-theorem-crosscheck"
@@ -164,7 +224,7 @@ def compare(case, impl, model):
 
 
 def classify(case, impl, model):
-    if case["kind"] == "oracle":
+    if case["kind"] in ("oracle", "missing"):
         return None
     m = inner(case["mod"])
     k = getattr(m, "classify", lambda *a: None)(case["inner"], impl, model)
@@ -183,20 +243,22 @@ def known(ctx):
 
 
 def nontrivial(case, model):
-    if case["kind"] == "oracle":
+    if case["kind"] in ("oracle", "missing"):
         return True
     m = inner(case["mod"])
     return getattr(m, "nontrivial", lambda c, mo: True)(case["inner"], model)
 
 
 def key(case):
+    if case["kind"] == "missing":
+        return "missing:" + case["api"]
     if case["kind"] == "oracle":
         return json.dumps([case["g"], case["X"], case["Y"], case["Z"], case["table"]], sort_keys=True)
     return (case["mod"], case["hashseed"], json.dumps(case["inner"], sort_keys=True))
 
 
 def shrink(case):
-    if case["kind"] == "oracle":
+    if case["kind"] in ("oracle", "missing"):
         return
     m = inner(case["mod"])
     if hasattr(m, "shrink"):
